@@ -10,6 +10,7 @@
 //   ZP <count> <seed> <threads>
 //   ZR              long double reference over all bins
 //   ZGO
+#include <limits>
 #include <sys/wait.h>
 #include <unistd.h>
 
@@ -237,6 +238,75 @@ run_case(const Case &c)
         ok = ok && seq(mv, c.pseed) == base && seq(ma, c.pseed) == base;
       }
       std::printf("ZPURE source_lifetime %d\n", ok ? 1 : 0);
+    }
+    // assignment over a live generator with MORE (and with fewer) bins than the source: the target must become an exact
+    // replica (same samples, same CDF, same range), nothing of its former table may survive
+    {
+      bool ok = true;
+      bool range_ok = true;
+      bool cdf_ok = true;
+      auto same = [&](const Gen &h) {
+        try {
+          for (auto k : c.ks) {
+            if (k < 0 || static_cast<unsigned __int128>(k) >= n128) continue;
+            if (bits(h.GetCDF(static_cast<Int>(k))) != bits(g.GetCDF(static_cast<Int>(k)))) cdf_ok = false;
+          }
+        } catch (const std::exception &) {
+          cdf_ok = false;
+        }
+        const auto sq = seq(h, c.pseed);
+        for (auto v : sq)
+          if (v < mn || mx < v) range_ok = false;
+        return cdf_ok && sq == base;
+      };
+      const unsigned __int128 room = static_cast<unsigned __int128>(std::numeric_limits<Int>::max()) - static_cast<unsigned __int128>(static_cast<__int128>(mx) - static_cast<__int128>(std::numeric_limits<Int>::min())) - (static_cast<unsigned __int128>(0) - static_cast<unsigned __int128>(static_cast<__int128>(std::numeric_limits<Int>::min()))) ;
+      (void)room;
+      if (n >= 1 && n <= 2000000ULL) {
+        // larger target: same min, max moved up (or min moved down when max sits at the type's limit)
+        const Int lim_hi = std::numeric_limits<Int>::max();
+        const Int lim_lo = std::numeric_limits<Int>::min();
+        const Int extra = static_cast<Int>(n < 1000 ? 1000 : 137);
+        try {
+          if (mx <= static_cast<Int>(lim_hi - extra - 300)) {
+            Gen bigger{mn, static_cast<Int>(mx + extra), alpha + 0.25};
+            bigger = g;
+            ok = ok && same(bigger);
+            Gen bigger2{mn, static_cast<Int>(mx + extra), alpha};
+            bigger2 = Gen{g};
+            ok = ok && same(bigger2);
+          } else if (mn >= static_cast<Int>(lim_lo + extra)) {
+            Gen bigger{static_cast<Int>(mn - extra), mx, alpha + 0.25};
+            bigger = g;
+            ok = ok && same(bigger);
+          }
+          if (n >= 3) {
+            Gen smaller{mn, static_cast<Int>(mn + static_cast<Int>((n - 1) / 2)), alpha};
+            smaller = g;
+            ok = ok && same(smaller);
+          }
+          {
+            // a moved-from generator that is assigned again (the middle step of a swap), equal and other parameters
+            Gen a{mn, mx, alpha};
+            Gen tmp{std::move(a)};
+            a = g;
+            ok = ok && same(a) && same(tmp);
+            Gen b{mn, mx, alpha};
+            Gen tmp2{};
+            tmp2 = std::move(b);
+            b = Gen{mn, mx, alpha};
+            ok = ok && same(b) && same(tmp2);
+            Gen d{};
+            d = g;
+            d = d;  // NOLINT self-assignment
+            ok = ok && same(d);
+          }
+        } catch (const std::exception &) {
+          ok = false;
+        }
+      }
+      std::printf("ZPURE assign_over_live %d\n", ok ? 1 : 0);
+      std::printf("ZPURE assigned_in_range %d\n", range_ok ? 1 : 0);
+      std::printf("ZPURE assigned_cdf %d\n", cdf_ok ? 1 : 0);
     }
     bool in_range = true;
     for (auto v : base) in_range = in_range && !(v < mn) && !(mx < v);
